@@ -69,6 +69,17 @@ func runScript(e *jsontext.Encoder, s string) error {
 	if body == "" {
 		return nil
 	}
+	// tw writes a token; a closing token that succeeds although the encoder is not deeper than
+	// it was when this call began ended a container that this call did not begin
+	d0 := e.StackDepth()
+	tw := func(t jsontext.Token) error {
+		before := e.StackDepth()
+		err := e.WriteToken(t)
+		if k := t.Kind(); err == nil && (k == '}' || k == ']') && before <= d0 {
+			saw("popped-below-entry")
+		}
+		return err
+	}
 	for _, op := range strings.Split(body, opSep) {
 		if op == "" {
 			continue
@@ -77,13 +88,13 @@ func runScript(e *jsontext.Encoder, s string) error {
 		arg := op[1:]
 		switch op[0] {
 		case '{':
-			err = e.WriteToken(jsontext.BeginObject)
+			err = tw(jsontext.BeginObject)
 		case '}':
-			err = e.WriteToken(jsontext.EndObject)
+			err = tw(jsontext.EndObject)
 		case '[':
-			err = e.WriteToken(jsontext.BeginArray)
+			err = tw(jsontext.BeginArray)
 		case ']':
-			err = e.WriteToken(jsontext.EndArray)
+			err = tw(jsontext.EndArray)
 		case 'n':
 			err = e.WriteToken(jsontext.Null)
 		case 't':
@@ -108,7 +119,7 @@ func runScript(e *jsontext.Encoder, s string) error {
 				e.Reset(io.Discard)
 			}()
 		case 'A':
-			err = popBelow(e, strict)
+			err = popBelow(e, strict, tw)
 		case 'N':
 			err = json.MarshalEncode(e, nestedPool[arg])
 		default:
@@ -123,9 +134,9 @@ func runScript(e *jsontext.Encoder, s string) error {
 
 // popBelow: write a value, close the PARENT container, open a sibling and refill it to the same
 // length, so that (depth, length) ends where "exactly one value" would end.
-func popBelow(e *jsontext.Encoder, strict bool) (first error) {
+func popBelow(e *jsontext.Encoder, strict bool, tw func(jsontext.Token) error) (first error) {
 	wr := func(t jsontext.Token) bool {
-		if err := e.WriteToken(t); err != nil {
+		if err := tw(t); err != nil {
 			if first == nil {
 				first = err
 			}
